@@ -44,6 +44,7 @@ struct Res {
   uint64_t outhash;
   int32_t haslive;  // bufferctrl::haslive() after the operation (must be 0)
   int32_t stale;    // a buffer group was set up with turn != 0 or over != false
+  int32_t left_open; // the operation returned without closing a stream it was given (API operations close both)
 };
 const char *KN[] = {"enc", "dec-genuine", "ver-genuine", "dec-wrongkey", "ver-wrongkey", "dec-tampered", "dec-truncated",
                     "dec-garbage", "dec-empty", "cli-enc", "cli-dec", "cli-ver", "cli-parse-fail", "enc-echo", "dec-boundary", "dec-badmode", "enc-allocfail"};
@@ -61,6 +62,11 @@ bytes genuine(vh::Rng &r, ops::EncParams &ep, bytes &P, size_t n) {
   P = r.bytes_(n);
   return ref::wenc_reference(P, ep.key, ep.cmode, ep.hmode, ep.seed.data(), ep.seed.size(), ep.T, VH_CHUNK);
 }
+
+// the most recent genuine file of the sequence: some later wrong-key / tampered operations work on THIS file, so that
+// anything an accepted operation leaves behind about (file, key) meets a related request
+struct LastGenuine { bool have = false; bytes F, P; uint8_t key[16]; int T; ops::EncParams ep; };
+static LastGenuine g_last;
 
 Op make_op(vh::Rng &r, int kind, const std::string &dir, int serial) {
   const size_t c = VH_CHUNK;
@@ -87,16 +93,25 @@ Op make_op(vh::Rng &r, int kind, const std::string &dir, int serial) {
   case 1: case 2: case 14:
     o.F = genuine(r, o.ep, o.P, n);
     memcpy(o.key, o.ep.key, 16);
+    g_last.have = true; g_last.F = o.F; g_last.P = o.P; g_last.T = o.T; g_last.ep = o.ep; memcpy(g_last.key, o.key, 16);
     break;
   case 3: case 4:
-    o.F = genuine(r, o.ep, o.P, n);
-    memcpy(o.key, o.ep.key, 16);
+    if (g_last.have && r.chance(60)) { // a wrong key for the file that was just accepted with the right one
+      o.F = g_last.F; o.P = g_last.P; o.T = o.ep.T = g_last.T; o.ep = g_last.ep; memcpy(o.key, g_last.key, 16);
+    } else {
+      o.F = genuine(r, o.ep, o.P, n);
+      memcpy(o.key, o.ep.key, 16);
+    }
     o.key[r.below(16)] ^= (uint8_t)(1 << r.below(8));
     break;
   case 5:
-    o.F = genuine(r, o.ep, o.P, n);
-    memcpy(o.key, o.ep.key, 16);
-    o.F[10 + r.below(o.F.size() - 10)] ^= (uint8_t)(1 + r.below(255));
+    if (g_last.have && r.chance(60)) { // a tampered copy of the file that was just accepted
+      o.F = g_last.F; o.P = g_last.P; o.T = o.ep.T = g_last.T; o.ep = g_last.ep; memcpy(o.key, g_last.key, 16);
+    } else {
+      o.F = genuine(r, o.ep, o.P, n);
+      memcpy(o.key, o.ep.key, 16);
+    }
+    o.F[(r.chance(50) ? 48 : 10) + r.below(o.F.size() - 48)] ^= (uint8_t)(1 + r.below(255));
     break;
   case 6:
     o.F = genuine(r, o.ep, o.P, n);
@@ -209,6 +224,7 @@ Res exec_op(const Op &o) {
     else x = ops::decrypt(o.F, o.key, o.T);
     if (r.ret != -3) r.ret = x.ret;
     out = x.out;
+    if (o.kind != 16 && (!x.in_closed || !x.out_closed)) r.left_open = 1;
   } else {
     // what main() does, minus exit codes
     write_file(o.infile, o.kind == 9 || o.kind == 12 ? o.P : o.F);
@@ -301,6 +317,7 @@ void run_C15(Ctx &cx) {
     int len = 2 + (int)r.below(r.chance(80) ? 12 : 39);
     std::vector<Op> seq;
     std::string kinds;
+    g_last.have = false;
     for (int i = 0; i < len; i++) {
       int kind = (int)r.below(NK);
       seq.push_back(make_op(r, kind, dir, i));
@@ -353,6 +370,7 @@ void run_C15(Ctx &cx) {
       if (a.ret != b.ret) cx.rep.violation(std::string("C15|result-differs|") + KN[kept[i].kind], "operation result differs from the same operation in a fresh process", j.done());
       else if (a.outlen != b.outlen || a.outhash != b.outhash) cx.rep.violation(std::string("C15|output-differs|") + KN[kept[i].kind], "output bytes differ from the same operation in a fresh process", j.done());
       if (a.haslive) cx.rep.violation("C15|live-buffers-left-behind", "live-buffer counter not back to zero after an operation", j.done());
+      if (a.left_open) cx.rep.violation(std::string("C15|stream-left-open|") + KN[kept[i].kind], "an operation returned without closing the streams it was given: every such operation leaks two descriptors, later operations in the process will fail", j.done());
       if (a.stale) cx.rep.violation("C15|stale-buffer-group", "a buffer group was set up with state left over from an earlier operation", j.done());
     }
     (void)ok;
